@@ -6,27 +6,39 @@ import (
 	"verif/harness/hx"
 )
 
-// gen drives one generated case. Every random choice comes from c.Rng.
-type gen struct {
+// cgen drives one generated case. Every random choice comes from c.Rng.
+type cgen struct {
 	r       *runner
 	c       *hx.Ctx
 	used    map[uint64]int // gas price -> group (sender index, or 100+k for the k-th ordinary tx)
 	tag     uint32
 	ordN    int
 	profile string
+	cheap   bool // draw only prices the funded senders can pay (for transactions committed directly)
 }
 
-func (g *gen) rnd(n int) int { return g.c.Intn(n) }
-func (g *gen) p(pct int) bool { return g.c.Intn(100) < pct }
+const maxAffordable = 2500
 
-func (g *gen) freshTag() uint32 { g.tag++; return g.tag }
+func (g *cgen) cheapPrice(group int) uint64 {
+	g.cheap = true
+	defer func() { g.cheap = false }()
+	return g.price(group)
+}
+
+func (g *cgen) rnd(n int) int { return g.c.Intn(n) }
+func (g *cgen) p(pct int) bool { return g.c.Intn(100) < pct }
+
+func (g *cgen) freshTag() uint32 { g.tag++; return g.tag }
 
 // price draws a gas price that no other group uses: with distinct prices across senders and
 // ordinary transactions the pool's output order does not depend on Go's map iteration order or
 // on sort.Sort's handling of ties (the model's theorems cover every order; the executable model
 // fixes one).
-func (g *gen) price(group int, candidates ...uint64) uint64 {
+func (g *cgen) price(group int, candidates ...uint64) uint64 {
 	for _, p := range candidates {
+		if p > 18446744073 || (g.profile != "adversarial" && p > maxAffordable && p < 18446744000) {
+			continue // not a price TransactionFromEIP155 can produce / not affordable
+		}
 		if o, ok := g.used[p]; !ok || (o == group && group < 100) {
 			g.used[p] = group
 			return p
@@ -40,13 +52,17 @@ func (g *gen) price(group int, candidates ...uint64) uint64 {
 		case 1, 2, 3:
 			p = uint64(1 + g.rnd(200))
 		case 4:
-			p = 18446744073 - uint64(g.rnd(50)) // top of the EIP-155 price range (2^64-1)/GWei
+			if g.p(30) && !g.cheap {
+				p = 18446744073 - uint64(g.rnd(50)) // top of the EIP-155 price range (2^64-1)/GWei
+			} else {
+				p = uint64(1 + g.rnd(2400))
+			}
 		default:
 			p = uint64(100 + g.rnd(5000))
 		}
-		if p > 2500 && p < 18446744000 && group < 100 && g.profile != "adversarial" {
-			// keep committed EVM transactions affordable: fundAmount / (30000 gas) per tx
-			p = p % 2500
+		if p > maxAffordable && p < 18446744000 && group < 100 && (g.cheap || g.profile != "adversarial") {
+			// keep committed EVM transactions affordable (the ledger checks balance >= gasLimit*price)
+			p = p % maxAffordable
 		}
 		if o, ok := g.used[p]; !ok || (o == group && group < 100) {
 			g.used[p] = group
@@ -55,7 +71,7 @@ func (g *gen) price(group int, candidates ...uint64) uint64 {
 	}
 }
 
-func (g *gen) poolNonces(s int) (nonces []uint64, occupant map[uint64]*mtx) {
+func (g *cgen) poolNonces(s int) (nonces []uint64, occupant map[uint64]*mtx) {
 	occupant = map[uint64]*mtx{}
 	for k, h := range g.r.slots() {
 		if k.payer == g.r.addrs[s] {
@@ -68,7 +84,7 @@ func (g *gen) poolNonces(s int) (nonces []uint64, occupant map[uint64]*mtx) {
 }
 
 // submit validates through the real stateful validator and (usually) delivers at once.
-func (g *gen) submit(ref TxRef, deliverPct int) {
+func (g *cgen) submit(ref TxRef, deliverPct int) {
 	before := len(g.r.pend)
 	g.r.do(Op{K: "val", Tx: &ref})
 	if len(g.r.pend) > before && g.p(deliverPct) {
@@ -76,7 +92,7 @@ func (g *gen) submit(ref TxRef, deliverPct int) {
 	}
 }
 
-func (g *gen) submitEIP() {
+func (g *cgen) submitEIP() {
 	s := g.rnd(nSenders)
 	acct := g.r.acctNonce(s)
 	nonces, occ := g.poolNonces(s)
@@ -117,7 +133,7 @@ func (g *gen) submitEIP() {
 	}
 }
 
-func (g *gen) submitOrd() {
+func (g *cgen) submitOrd() {
 	g.ordN++
 	g.submit(TxRef{S: -1, N: uint32(g.ordN), P: g.price(100 + g.ordN), Tag: g.freshTag()}, 85)
 }
@@ -130,7 +146,7 @@ func refsOf(l []*mtx) []TxRef {
 	return out
 }
 
-func (g *gen) commit(txs []TxRef) bool {
+func (g *cgen) commit(txs []TxRef) bool {
 	h := g.r.height()
 	g.r.do(Op{K: "commit", Txs: txs})
 	if g.r.height() == h {
@@ -150,7 +166,7 @@ func (g *gen) commit(txs []TxRef) bool {
 }
 
 // events delivers queued block events to the validator and/or the pool (oldest first).
-func (g *gen) events(iv, pool bool) {
+func (g *cgen) events(iv, pool bool) {
 	if iv && len(g.r.ivq) > 0 {
 		h := g.r.ivq[0]
 		g.r.ivq = g.r.ivq[1:]
@@ -167,7 +183,7 @@ func (g *gen) events(iv, pool bool) {
 	}
 }
 
-func (g *gen) foreignBlock() {
+func (g *cgen) foreignBlock() {
 	var txs []TxRef
 	bad := g.p(15)
 	for s := 0; s < nSenders; s++ {
@@ -182,10 +198,10 @@ func (g *gen) foreignBlock() {
 			if bad && j == k-1 {
 				n += 1 + uint64(g.rnd(2)) // the ledger refuses the block
 			}
-			if m, ok := occ[n]; ok && g.p(50) && m.tx.GasPrice < 2500 {
+			if m, ok := occ[n]; ok && g.p(50) && m.tx.GasPrice <= maxAffordable {
 				txs = append(txs, m.ref)
 			} else {
-				txs = append(txs, TxRef{S: s, N: uint32(n), P: g.price(s), Tag: g.freshTag()})
+				txs = append(txs, TxRef{S: s, N: uint32(n), P: g.cheapPrice(s), Tag: g.freshTag()})
 			}
 		}
 	}
@@ -217,7 +233,7 @@ func (g *gen) foreignBlock() {
 	g.commit(txs)
 }
 
-func (g *gen) heightChoice() uint32 {
+func (g *cgen) heightChoice() uint32 {
 	cur := g.r.height()
 	start, _ := g.r.iv.BlockRange()
 	switch g.rnd(6) {
@@ -236,7 +252,7 @@ func (g *gen) heightChoice() uint32 {
 	return cur
 }
 
-func (g *gen) verifyList() {
+func (g *cgen) verifyList() {
 	var txs []TxRef
 	for s := 0; s < nSenders; s++ {
 		nonces, occ := g.poolNonces(s)
@@ -262,7 +278,7 @@ func (g *gen) verifyList() {
 	g.r.do(Op{K: "verifylist", Txs: txs, H: g.heightChoice()})
 }
 
-func (g *gen) adversarialAdd() {
+func (g *cgen) adversarialAdd() {
 	cur := g.r.height()
 	switch g.rnd(4) {
 	case 0: // a transaction that is already on chain, with a verification height of our choosing
@@ -292,7 +308,7 @@ func (g *gen) adversarialAdd() {
 	}
 }
 
-func (g *gen) reverify(l []*mtx) {
+func (g *cgen) reverify(l []*mtx) {
 	for _, m := range l {
 		if g.p(75) {
 			g.submit(m.ref, 90)
@@ -312,7 +328,7 @@ func generate(c *hx.Ctx, caseNo, i int) {
 	}
 	s.MaxTx = []uint{60000, 60000, 3, 1, 0, 8}[c.Intn(6)]
 	r := newRunner(c, s, caseNo)
-	g := &gen{r: r, c: c, used: map[uint64]int{}, profile: profile}
+	g := &cgen{r: r, c: c, used: map[uint64]int{}, profile: profile}
 	// block 1 funds the three senders
 	g.commit([]TxRef{{S: -2, Tag: 0}, {S: -2, Tag: 1}, {S: -2, Tag: 2}})
 	nops := c.N(34, 60) + c.Intn(12)
@@ -334,7 +350,7 @@ func generate(c *hx.Ctx, caseNo, i int) {
 			if len(r.lastProposal) > 0 && g.p(75) {
 				txs := refsOf(r.lastProposal)
 				for _, t := range txs {
-					if t.S >= 0 && t.P > 2500 && t.P < 18446744000 {
+					if t.S >= 0 && t.P > maxAffordable {
 						txs = nil // unaffordable price (adversarial profile): keep it in the pool
 						break
 					}
@@ -359,10 +375,6 @@ func generate(c *hx.Ctx, caseNo, i int) {
 				r.do(Op{K: "rmbelow", G: prices[g.rnd(len(prices))]})
 			}
 		case x < 94:
-			before := map[uint64]bool{}
-			for _, m := range r.txs {
-				before[m.id] = true
-			}
 			var inPool []*mtx
 			for _, m := range r.txs {
 				if r.pool.GetTransaction(m.tx.Hash()) != nil {
